@@ -168,7 +168,7 @@ def hand_asts():
     deep = A.lst(A.st(A.lst(A.st(A.lst(i(1), s("é中 ; not a comment")), i(2)), s("")), A.call("f", A.call("g", A.call("h", A.lst())))), A.null(), A.true(), A.false())
     deep["trail"] = True
     deep["elems"][0]["trail"] = True
-    exprs = [s("l1\nl2\n\n  l4"), s("l1\nl2"), s("t\tb\n"), deep, i(0), i(4294967295), s("q\"uote \\ back\nnl\ttab\rcr"), A.lst(), A.st(), A.lst(i(1)), A.st(s("x")), dict(A.lst(i(1)), trail=True), dict(A.st(s("x")), trail=True),
+    exprs = [s("l1\nl2\n\n  l4"), s("l1\nl2"), s("t\tb\n"), deep, i(0), i(4294967295), s("q\"uote \\ back\nnl\ttab\rcr"), A.lst(), A.st(), A.st(i(1), i(2), i(1)), A.st(A.call("node"), A.call("node"), A.null(), A.null()), A.lst(i(1), i(1)), A.lst(i(1)), A.st(s("x")), dict(A.lst(i(1)), trail=True), dict(A.st(s("x")), trail=True),
              dict(A.lst(dict(A.lst(c("m")), trail=True), dict(A.st(i(2)), trail=True)), trail=True),
              A.listc(A.call("plus", v("x"), i(1)), "x", A.lst(i(1), i(2))), A.setc(A.svar(v("y"), "a"), "y", A.listc(v("z"), "z", c("xs"))),
              A.svar(A.svar(A.svar(c("m"), "a"), "b"), "c"), A.svar(A.call("f", c("m")), "d"), A.svar(A.lst(c("m")), "weird"),
